@@ -740,6 +740,14 @@ void PrintCommands(Edge* edge, EdgeSet* seen, PrintCommandMode mode) {
 
   if (!edge->is_phony())
     puts(edge->EvaluateCommand().c_str());
+
+  if (mode == PCM_All) {
+    // Building this edge also builds its validations; they may depend on the
+    // edge's outputs, so they come after it.
+    for (vector<Node*>::iterator v = edge->validations_.begin();
+         v != edge->validations_.end(); ++v)
+      PrintCommands((*v)->in_edge(), seen, mode);
+  }
 }
 
 int NinjaMain::ToolCommands(const Options* options, int argc, char* argv[]) {
